@@ -1,18 +1,18 @@
 (* Timed networks below model/Router.v (property C05).  Time is in nanoseconds (Z).
 
-   A timed network holds the clock, the read deadline as the connection STORES it, the instant
-   at which the connection's own timer fires (UDP emulation), the bytes that have arrived and
-   are unread, the future arrivals (absolute times) and the instant at which the client closes.
-   A blocked read returns at min(arrival, deadline).  Two instances of [Router.compile]'s network:
+   A timed network holds the clock, the instant last given to SetReadDeadline, the bytes that have
+   arrived and are unread, the future arrivals (absolute times) and the instant at which the client
+   closes.  A blocked read returns at min(arrival, deadline).  Two instances of [Router.compile]'s
+   network:
 
-   * TCP (net.TCPConn, net.Pipe): SetReadDeadline stores the instant as given; a Read fails at
-     once when the deadline has passed, otherwise returns data as soon as some is there, and
-     fails at the deadline if none arrives before.
-   * UDP: layer4.packetConn (layer4/server.go).  SetReadDeadline stores the instant ROUNDED DOWN
-     to the granularity found in the source (generated: layer4_udp_deadline_granularity_ns; Go's
-     t.Unix() is Z.div by 10^9) and (re)sets deadlineTimer to the exact instant.  Read serves the
-     rest of the last datagram first, then tests the stored deadline (strictly before now), then
-     waits for a datagram, the deadline timer (re-testing the stored deadline) or the idle timer.
+   * TCP (net.TCPConn, net.Pipe): a Read fails at once when the deadline has passed, otherwise
+     returns data as soon as some is there, and fails at the deadline if none arrives before.
+   * UDP: layer4.packetConn (layer4/server.go).  SetReadDeadline keeps the instant ROUNDED DOWN to
+     the granularity found in the source (generated: layer4_udp_deadline_granularity_ns; Go's
+     t.Unix() would be Z.div by 10^9, t.UnixNano() is granularity 1) and (re)sets deadlineTimer to
+     the exact instant.  Read serves the rest of the last datagram first, then tests the stored
+     deadline (strictly before now), then waits for a datagram, the deadline timer (re-testing the
+     stored deadline) or the idle timer (udpAssociationIdleTimeout, generated).
 
    Definitions only; lemmas are in proofs/TimingProofs.v. *)
 From Coq Require Import List NArith ZArith Bool Arith Lia.
@@ -100,6 +100,10 @@ Definition udp_read_g (g : Z) (max : nat) (n : tnet) : rres * tnet :=
 Definition udp_set_dl := udp_set_dl_g udp_granularity.
 Definition udp_read := udp_read_g udp_granularity.
 
+(* Connection.Wrap: the old Connection below delivers its buffered bytes first *)
+Definition tpush (b : list byte) (n : tnet) : tnet :=
+  {| clock := clock n; dl := dl n; unread := b ++ unread n; pend := pend n; fin := fin n |}.
+
 (* ---------------------------------------------------------------- running the router over them *)
 Definition t_init (t0 : Z) (arrivals : list (Z * list byte)) (close_at : Z) : tnet :=
   {| clock := t0; dl := None; unread := []; pend := arrivals; fin := close_at |}.
@@ -107,9 +111,9 @@ Definition t_init (t0 : Z) (arrivals : list (Z * list byte)) (close_at : Z) : tn
 Definition st_init (n : tnet) : st tnet := {| off := 0%nat; avail := []; nt := n; tr := [] |}.
 
 Definition tcp_serve (fuel : nat) (rs : list route) (timeout : Z) (n : tnet) : res tnet :=
-  serve tnet tnow tcp_set_dl tcp_read fuel rs timeout (st_init n).
+  serve tnet tnow tcp_set_dl tcp_read tpush fuel rs timeout (st_init n).
 Definition udp_serve_g (g : Z) (fuel : nat) (rs : list route) (timeout : Z) (n : tnet) : res tnet :=
-  serve tnet tnow (udp_set_dl_g g) (udp_read_g g) fuel rs timeout (st_init n).
+  serve tnet tnow (udp_set_dl_g g) (udp_read_g g) tpush fuel rs timeout (st_init n).
 Definition udp_serve := udp_serve_g udp_granularity.
 
 (* the instant and reason of the first drop in a timed trace *)
